@@ -2,7 +2,8 @@
 //! Vm. Every generated function stores its position in the compiler's function order into the global
 //! `ran`, its parameters into `p0`.., and returns 9000 + position when that is even; the call site
 //! (function `zzsite` of the caller module) stores the call's value into `ret` and its own local `keep`
-//! (set to 77 before the call; the callee sets a local of the same name) into `keep_after`.
+//! (set to 77 before the call; the callee sets a local of the same name) into `keep_after`.  Half of the bodies also
+//! leave a temporary on the stack (a value card in statement position) before they end.
 use crate::modgen;
 use crate::out::{self, CaseWriter};
 use crate::rng::Rng;
@@ -236,6 +237,12 @@ fn callee_body(name: &str, tag: i64) -> Function {
         cards.push(Card::set_global_var(format!("p{}", j), Card::read_var(format!("q{}", j))));
     }
     cards.push(Card::set_var("keep", int(5)));
+    if tag % 4 == 1 || tag % 4 == 2 {
+        // a value card in statement position (like a call whose result is not used): its value stays on the callee's
+        // part of the stack as a temporary above the locals until the function returns - a callee that does not
+        // return a value must still hand back nil
+        cards.push(int(31000 + tag));
+    }
     if tag % 2 == 0 {
         cards.push(CardBody::Return(UnaryExpression { card: Box::new(int(9000 + tag)) }).into());
     }
